@@ -79,13 +79,18 @@ Proof.
   intros Hlt. unfold so_expire, bind, gets. cbn.
   set (s1 := with_heap s _).
   assert (L1 : (o < length (heap s1))%nat) by (subst s1; cbn; now rewrite length_set_nth).
-  set (s2 := with_heap s1 _).
-  destruct (cache_expire_run (i_k (get_inst s o)) (i_id (get_inst s o)) s2) as (c' & Ec). rewrite Ec.
-  eexists. split; [reflexivity|]. cbn.
-  repeat split; rewrite ?length_set_nth; try exact Hlt.
-  all: unfold get_inst at 1; cbn; rewrite nth_set_nth_same by (rewrite ?length_set_nth; exact Hlt); cbn; try reflexivity;
-       unfold get_inst at 1; cbn; rewrite nth_set_nth_same by (rewrite ?length_set_nth; exact Hlt); cbn;
-       subst s1; rewrite get_inst_upd by exact Hlt; reflexivity.
+  destruct (i_expired (get_inst s o)).
+  - cbn. eexists. split; [reflexivity|]. cbn.
+    repeat split; rewrite ?length_set_nth; try exact Hlt.
+    all: unfold get_inst at 1; cbn; rewrite nth_set_nth_same by (rewrite ?length_set_nth; exact Hlt); cbn; try reflexivity;
+         subst s1; rewrite get_inst_upd by exact Hlt; reflexivity.
+  - cbn. set (s2 := with_heap s1 _).
+    destruct (cache_expire_run (i_k (get_inst s o)) (i_id (get_inst s o)) s2) as (c' & Ec). rewrite Ec.
+    eexists. split; [reflexivity|]. cbn.
+    repeat split; rewrite ?length_set_nth; try exact Hlt.
+    all: unfold get_inst at 1; cbn; rewrite nth_set_nth_same by (rewrite ?length_set_nth; exact Hlt); cbn; try reflexivity;
+         unfold get_inst at 1; cbn; rewrite nth_set_nth_same by (rewrite ?length_set_nth; exact Hlt); cbn;
+         subst s1; rewrite get_inst_upd by exact Hlt; reflexivity.
 Qed.
 
 End WithConfig.
